@@ -1,5 +1,6 @@
 """Native replays for C16: scenario sweeps on the real object API, checking the statement's invariants after every step."""
 import itertools
+import re
 
 from _griffe.collections import ModulesCollection
 from _griffe.exceptions import CyclicAliasError
@@ -49,7 +50,15 @@ def invariants(coll):
                 if t is obj:
                     bad.append(f"alias {obj.path} targets itself")
                 elif t.aliases.get(obj.path) is not obj:
-                    bad.append(f"resolved alias {obj.path} is not listed among its target's aliases under its current path (keys: {sorted(t.aliases)})")
+                    other = t.aliases.get(obj.path)
+                    holder = ""
+                    if other is not None:
+                        try:
+                            detached = coll.get_member(other.path) is not other
+                        except Exception:  # noqa: BLE001
+                            detached = True
+                        holder = " [slot held by a detached alias]" if detached else " [slot held by another live alias]"
+                    bad.append(f"resolved alias {obj.path} is not listed among its target's aliases under its current path (keys: {sorted(t.aliases)}){holder}")
     return bad
 
 
@@ -188,7 +197,200 @@ def run_all(filter_words=()):
     return problems
 
 
+class History:
+    """One history on the real API next to a reference dictionary (dotted path -> object expected there).  Top-down construction only
+    (containers are attached before they are filled: the bottom-up case is the recorded finding C16-F1)."""
+
+    def __init__(self, names):
+        self.names = names
+        self.coll = ModulesCollection()
+        self.ref = {}
+        top = Module("m")
+        self.coll.set_member("m", top)
+        self.ref["m"] = top
+        self.trace = ["coll['m'] = Module"]
+
+    def containers(self):
+        return [p for p, o in self.ref.items() if not o.is_alias and (o.is_module or o.is_class)]
+
+    def ops(self, kinds=("Class", "Function", "Attribute", "Module"), hows=("name", "dotted", "tuple", "item")):
+        """Every operation applicable in the current state, as replayable descriptors."""
+        out = []
+        for cpath in self.containers():
+            for name in self.names:
+                path = f"{cpath}.{name}"
+                for kind in kinds:
+                    if kind == "Module" and not self.ref[cpath].is_module:
+                        continue
+                    out.extend(("set", cpath, name, how, kind) for how in hows)
+                if path in self.ref:
+                    out.extend(("del", cpath, name, how, None) for how in hows)
+                for tp, o in self.ref.items():
+                    if not o.is_alias and tp != "m" and tp != path and not path.startswith(tp + ".") and not tp.startswith(path + "."):
+                        out.append(("alias", cpath, name, "object", tp))
+                        out.append(("alias", cpath, name, "path", tp))
+        out.extend(("selftarget", ap, None, None, None) for ap, o in self.ref.items() if o.is_alias)
+        return out
+
+    def _drop(self, path):
+        for k in [k for k in self.ref if k == path or k.startswith(path + ".")]:
+            del self.ref[k]
+
+    def apply(self, desc):
+        """Apply one operation; return the problems seen right after it (list of {problem, signature})."""
+        op, cpath, name, how, arg = desc
+        coll, ref, problems = self.coll, self.ref, []
+        path = f"{cpath}.{name}" if name else cpath
+
+        def note(problem, signature):
+            problems.append({"problem": problem + " | " + "; ".join(self.trace[-7:]), "signature": signature})
+        try:
+            if op == "set":
+                obj = mk(arg, name)
+                old = ref.get(path)
+                if how == "name":
+                    ref[cpath].set_member(name, obj)
+                elif how == "dotted":
+                    coll.set_member(path, obj)
+                elif how == "tuple":
+                    coll.set_member(tuple(path.split(".")), obj)
+                else:
+                    coll[path] = obj
+                self._drop(path)
+                ref[path] = obj
+                self.trace.append(f"{how}: {path} = {arg}")
+                if old is not None and not old.is_alias and how != "item":
+                    # aliases that pointed at the replaced object follow the replacement (tree-building API only)
+                    for apath, a in list(ref.items()):
+                        if a.is_alias and a.resolved and a._target is old and apath != path:
+                            note(f"alias {apath} still targets the replaced object {path}", "tree:alias-did-not-follow-replacement")
+            elif op == "del":
+                if how == "name":
+                    ref[cpath].del_member(name)
+                elif how == "dotted":
+                    coll.del_member(path)
+                elif how == "tuple":
+                    coll.del_member(tuple(path.split(".")))
+                else:
+                    del coll[path]
+                self._drop(path)
+                self.trace.append(f"{how}: del {path}")
+            elif op == "alias":
+                al = Alias(name, ref[arg] if how == "object" else arg)
+                ref[cpath].set_member(name, al)
+                self._drop(path)
+                ref[path] = al
+                self.trace.append(f"alias {path} -> {arg}")
+                try:
+                    al.target
+                except Exception as e:  # noqa: BLE001
+                    note(f"alias {path} -> {arg} cannot be resolved: {type(e).__name__}", "tree:alias-unresolvable")
+            else:  # an alias can never be made to target itself
+                try:
+                    ref[cpath].target = ref[cpath]
+                    note(f"alias {cpath} accepted itself as target", "tree:alias-self-target")
+                except CyclicAliasError:
+                    pass
+                self.trace.append(f"self-target {cpath} refused")
+        except Exception as e:  # noqa: BLE001
+            note(f"raised {type(e).__name__}: {e} during {desc}", f"tree:raised-{type(e).__name__}")
+            return problems
+        bad = invariants(coll)
+        for pth, o in ref.items():
+            try:
+                if coll.get_member(pth) is not o:
+                    bad.append(f"{pth} holds another object than the one put there")
+            except KeyError:
+                bad.append(f"{pth} was put there but is gone")
+        for pth in [f"{c}.{n}" for c in self.containers() for n in self.names]:
+            if pth not in ref:
+                try:
+                    coll.get_member(pth)
+                    bad.append(f"{pth} was deleted (or never set) but is still there")
+                except KeyError:
+                    pass
+        for b in bad[:2]:
+            # C16-F2: an alias member that was replaced or deleted stays registered in its old target's aliases; when that target is later
+            # replaced through set_member the detached alias is retargeted too and takes the live alias' slot.  Identified by: the slot is
+            # held by a detached alias AND the step that broke it is a set_member replacement at ANOTHER path (the live alias was listed
+            # correctly after its own insertion -- the invariant held at every earlier step).
+            m = re.match(r"resolved alias (\S+) is not listed", b)
+            stale = bool(m) and "[slot held by a detached alias]" in b and m.group(1) != path and (op == "alias" or (op == "set" and how != "item"))
+            note(b, STALE_SIG if stale else "tree:" + b.split(" (keys")[0])
+        return problems
+
+
+def _keep(problems, new):
+    for q in new:
+        if q["signature"] == STALE_SIG and sum(1 for x in problems if x["signature"] == STALE_SIG) >= 2:
+            continue
+        problems.append(q)
+
+
+def random_histories(seed, n_hist, max_len, budget_s=40):
+    """Random operation sequences over a small universe, every invariant and the reference dictionary checked after each step."""
+    import random
+    import time
+    rnd = random.Random(seed)
+    t0 = time.time()
+    problems, done = [], 0
+    for _h in range(n_hist):
+        if time.time() - t0 > budget_s or sum(1 for q in problems if q["signature"] != STALE_SIG) >= 3:
+            break
+        h = History(["a", "b", "c"])
+        for _step in range(rnd.randint(1, max_len)):
+            ops = h.ops()
+            # replacements and aliases are what the statement is about: do not let the many plain insertions drown them
+            weights = [1 if o[0] == "set" else 4 if o[0] == "del" else 2 for o in ops]
+            new = h.apply(rnd.choices(ops, weights)[0])
+            done += 1
+            if new:
+                _keep(problems, new)
+                break
+    return done, problems
+
+
+def exhaustive_histories(length, budget_s=600, shard=0, shards=1):
+    """EVERY operation sequence of exactly `length` steps over the universe {m} x names {a, b} x kinds {Class, Function, Attribute} x all four key
+    forms x deletions x aliases (by object and by path) x self-target attempts; shorter sequences are its prefixes."""
+    import time
+    t0 = time.time()
+    problems, count = [], [0, 0]
+    kinds = ("Class", "Function", "Attribute")
+
+    def rec(prefix):
+        if time.time() - t0 > budget_s:
+            count[1] = 1
+            return
+        h = History(["a", "b"])
+        for d in prefix:
+            if h.apply(d):
+                return      # reported when this prefix was the current sequence
+        if len(prefix) == length:
+            return
+        for i, d in enumerate(h.ops(kinds=kinds)):
+            if len(prefix) == 1 and i % shards != shard:      # shards split the second operation (the first step offers too few to balance)
+                continue
+            if not prefix and shard and length > 1:
+                rec([d])                                        # the one-step sequences themselves are counted by shard 0
+                continue
+            h2 = History(["a", "b"])
+            for e in prefix:
+                h2.apply(e)
+            new = h2.apply(d)
+            count[0] += 1
+            if new:
+                _keep(problems, new)
+                if sum(1 for q in problems if q["signature"] != STALE_SIG) >= 3:
+                    return
+            else:
+                rec(prefix + [d])
+    rec([])
+    return count[0], bool(count[1]), problems
+
+
 KNOWN_SIG = "alias-parent-before-attach"
+STALE_SIG = "stale-alias-retargeted-over-live-alias"
 
 
 def _result(problems):
@@ -222,6 +424,16 @@ def replay_get_parts(w, obligation, expects):
 
 if __name__ == "__main__":
     import json
+    import sys
+    if len(sys.argv) > 1 and sys.argv[1] == "random":
+        seed, n_hist, max_len, budget = (int(x) for x in sys.argv[2:6])
+        done, probs = random_histories(seed, n_hist, max_len, budget)
+        print(json.dumps({"steps": done, "problems": probs}))
+        sys.exit(0)
+    if len(sys.argv) > 1 and sys.argv[1] == "exhaustive":
+        n, cut, probs = exhaustive_histories(int(sys.argv[2]), int(sys.argv[3]), *(int(x) for x in sys.argv[4:6]))
+        print(json.dumps({"sequences": n, "cut_short": cut, "problems": probs}))
+        sys.exit(0)
     probs = run_all()
     print(json.dumps({"scenarios": len(scenarios()), "problems": [
         {"problem": p, "signature": KNOWN_SIG if "(no re-insertion)" in p else "tree:" + p} for p in probs]}))
